@@ -488,6 +488,12 @@ def run_filter(spec, out):
     for j in range(spec["count"]):
         n = int(rng.integers(1, 9))
         m = int(rng.integers(1, 11))
+        long_history = bool(j % 3 == 2)
+        if long_history:
+            # scale: histories of 12 to 45 pairs in 20 to 50 dimensions, of which the new objective invalidates only a few
+            n = int(rng.integers(20, 51))
+            m = int(rng.integers(12, 46))
+            out.count("filter_calls_on_histories_of_12_to_45_pairs")
         A = gen.rand_spd(rng, n, float(np.exp(rng.uniform(0, np.log(1e3)))))
         X = [rng.standard_normal(n)]
         for _ in range(m):
@@ -495,6 +501,9 @@ def run_filter(spec, out):
         # gradients of a new objective for which part of the history has lost its curvature
         Q, _ = np.linalg.qr(rng.standard_normal((n, n)))
         ev = rng.standard_normal(n) * float(np.exp(rng.uniform(-1, 2)))
+        if long_history:
+            ev[int(rng.integers(1, 4)):] = 0.0  # negative curvature in one to three directions only: most pairs keep theirs
+            ev[: 3] = -np.abs(ev[: 3]) * float(np.exp(rng.uniform(0, 2)))
         Aind = A + (Q * ev) @ Q.T * float(rng.uniform(0.3, 3.0))
         Aind = (Aind + Aind.T) / 2
         G = [Aind @ x for x in X]
